@@ -13,16 +13,21 @@ K_INPUT = ("Context.evaluate(q, input_value=v) called without input_value_specif
            "stores the input-dependent result in the cache under the plain key q (context.py:1029-1040,1109-1118: the NoCache substitution and "
            "the lookup bypass test different conditions); a later plain evaluate(q) is served the value computed from v")
 
+K_GLOBALMETA = ("Context.evaluate does not forward its cache argument to evaluate_action (context.py:1105 vs 659), which therefore writes the final metadata "
+                "(status ready) of an evaluate_on(..., extra_parameters=) run - which must not touch the cache - into the GLOBAL cache; on an existing "
+                "finished entry of a conditional MemoryCache (its condition rejects the attribute-less 'expired' marker that otherwise invalidates the "
+                "entry) the entry keeps its data but gets the volatile run's metadata: the next plain evaluate(q) is served with volatile=True")
+
 TARGETS = [
-    "one/add-2/add-3", "coll-a/push-b", "add-3", "hello-a~Ib/cat", "dct/setkey", "lst-a/poplen/add-1", "one/vol-1/add-2", "one/nocache/add-1",
-    "one/fail/add-1", "one/let-v-x/add-~X~add-1~E/state_variable-v", "one/add-2/out.txt", "one/cap/low/add-1",
+    "one/add-2/add-3", "coll-a/push-b", "add-3", "hello-a~Ib/cat", "dct/setkey", "one/vol-1/add-2", "one/nocache/add-1",
+    "one/fail/add-1", "one/let-v-x/add-~X~add-1~E/state_variable-v", "lst-a/poplen/add-1", "one/add-2/out.txt", "one/cap/low/add-1",
     "lst-a-b/push/push-q", "hello/cat-~X~/num-3~E", "one/ns-second/add-3", "lst-a-b/appendvar/state_variable-lv", "one/sub",
     # thorough only
     "one/nocache2/add-2", "one/cset-w-cw/state_variable-w", "num-~X~/one/add-2~E/add-1", "vfirst/add-1", "one/low", "one/cap", "one/ns-second/sec/add",
     "gen/coll-z", "hello/st/x.TXT", "one/add-~X~/one/fail~E", "lst-a/push/coll-~X~push-b~E-~X~/lst-c/push~E", "dct/setkey-z-9/setkey", "one/mul-2.5/tog-t",
     "/one/add-2", "one/add-x/add-1", "nosuch/add-1", "one/sub-" + M.encode_token("hello/let-v-sv/st"),
 ]
-QUICK_TARGETS = 12
+QUICK_TARGETS = 8
 MAIN_KINDS = ["MemoryCache", "FileCache", "SQLCache.from_sqlite", "StoreCache(MemoryStore)"]
 
 
@@ -44,11 +49,14 @@ def play(factory, q, history, mode):
 
 
 def classify(q, history, obs, exp):
-    for op in history:
-        if op[0] == "eval_input":
-            alt = M.run(q, input_value=op[1])
-            if not M.outcome_diff(alt, obs, FIELDS) and M.outcome_diff(exp, obs, FIELDS):
-                return K_INPUT
+    if any(op[0] == "eval_input" for op in history):
+        sim = M.PollutedSim().play(history)
+        _calls, fr = sim.run(q)
+        if fr is not None and obs.ok and M.same_value(M._simple(fr.value), M._simple(obs.value)):
+            return K_INPUT
+    d = M.outcome_diff(exp, obs, FIELDS)
+    if [(f, a, b) for f, a, b in d] == [("volatile", False, True)] and any(op[0] in ("eval_on_extra",) for op in history):
+        return K_GLOBALMETA
     return None
 
 
@@ -101,11 +109,15 @@ def bounded(tier, seed):
                 for op in ops:
                     check(col, kind, factory, q, [op], mode)
                     n += 1
+                    if op[0] in ("eval_on", "eval_input", "eval_extra", "eval_on_extra") and mode == "global":
+                        # an input/extra run on top of a finished entry
+                        check(col, kind, factory, q, [["eval", q], op], mode)
+                        n += 1
                 col.nontrivial.add((kind, q, mode))
         depth = 1
         pair_targets = []
         if kind == "MemoryCache":
-            pair_targets = targets[:6] if tier == "quick" else targets
+            pair_targets = targets[:5] if tier == "quick" else targets
         elif tier != "quick" and kind in MAIN_KINDS + ["MemoryCache.if_contains(ABC)+MemoryCache", "NoCache+MemoryCache", "CacheProxy(FileCache)",
                                                         "StoreCache(FileStore,flat)", "FernetFileCache", "SQLStringCache.from_sqlite"]:
             pair_targets = targets[:17]
@@ -117,7 +129,7 @@ def bounded(tier, seed):
                     check(col, kind, factory, q, [op1, op2], "global")
                     n += 1
         # seeded random longer histories
-        nr = 4 if tier == "quick" else 60
+        nr = 3 if tier == "quick" else 60
         for _ in range(nr):
             q = rnd.choice(targets)
             ops = ops_of(q)
